@@ -218,6 +218,7 @@ def c10f(tree, ob):
 def c10e(tree, ob):
     allowed = {('bp/util.py', 'BundleContainer.record_action'), ('bp/util.py', 'BundleContainer.__init__'),
                ('bp/app/bpsec.py', 'Bpsec._verify_bcb', 'del'), ('bp/app/bpsec.py', 'Bpsec._verify_bib', 'del'),
+               ('bp/app/bpsec.py', 'Bpsec._verify_bcb', 'pop'), ('bp/app/bpsec.py', 'Bpsec._verify_bib', 'pop'),
                ('bp/app/fragment.py', 'Fragment._reassemble', 'clear')}
     for rel in sorted(r for r in tree.modules if r.startswith('bp/')):
         for (r, qual, func) in tree.all_functions([rel]):
